@@ -138,6 +138,9 @@ pub struct Projection {
     /// answers above depends on when the broker's PUBREC arrives and is not compared
     pub releases: Vec<Vec<u16>>,
     pub deliveries: Vec<Delivered>,
+    /// two PINGREQs completed at the same virtual instant on one transport (a cancelled operation
+    /// that was sending the due PINGREQ must not make the next one send another)
+    pub duplicate_ping: bool,
     pub undecodable: bool,
     pub panic: Option<String>,
     pub quiescent_end: bool,
@@ -149,8 +152,14 @@ pub fn project(t: &Trace) -> Projection {
     let mut requests = vec![Vec::new(); ntr];
     let mut reactions = vec![Vec::new(); ntr];
     let mut releases = vec![Vec::new(); ntr];
+    let mut last_ping: Vec<Option<u64>> = vec![None; ntr];
+    let mut duplicate_ping = false;
     for (i, p) in v.out.iter().enumerate() {
         match &p.packet {
+            Packet::PingReq => {
+                duplicate_ping |= last_ping[p.tr] == Some(p.t_last);
+                last_ping[p.tr] = Some(p.t_last);
+            }
             Packet::Publish(_) | Packet::Subscribe { .. } | Packet::Unsubscribe { .. } | Packet::Disconnect { .. } => {
                 let mut b = v.bytes(i).to_vec();
                 if matches!(p.packet, Packet::Publish(_) | Packet::Subscribe { .. } | Packet::Unsubscribe { .. }) {
@@ -178,6 +187,7 @@ pub fn project(t: &Trace) -> Projection {
         reactions,
         releases,
         deliveries: t.deliveries.clone(),
+        duplicate_ping,
         undecodable: v.trs.iter().any(|x| x.fatal.is_some()) || partial_tail,
         panic: t.panic.clone(),
         quiescent_end,
@@ -267,6 +277,9 @@ fn describe(a: &Projection, b: &Projection) -> (&'static str, String) {
     }
     if a.releases != b.releases {
         return ("pubrel-packets", format!("uncancelled {:?} vs cancelled {:?}", a.releases, b.releases));
+    }
+    if a.duplicate_ping != b.duplicate_ping {
+        return ("duplicate-pingreq", "two PINGREQs were completed at the same instant on one transport".into());
     }
     if a.deliveries != b.deliveries {
         return ("deliveries", format!("{} vs {} messages delivered / different contents", a.deliveries.len(), b.deliveries.len()));
